@@ -297,6 +297,18 @@ def extra_predicate_rule(ctx, rid, f, with_reaper):
     for n in walk_shallow(ld.node):
         if isinstance(n, ast.BinOp) and isinstance(n.op, ast.Mult) and isinstance(n.left, ast.Tuple) and len(n.left.elts) == 1:
             sizes.append(n)
+    if not sizes:
+        # the stand-in may be built in a helper of the loader (a method of the Reaper or a sibling closure)
+        from ..util import callee_func
+        for _, c_, _nm in all_calls(ctx, ld):
+            h_ = callee_func(ctx, ld, c_)
+            if h_ is not None and h_ is not ld and (h_.cls is ld.cls and ld.cls is not None or h_.parent is ld.parent and ld.parent is not None):
+                hs_ = [n for n in walk_shallow(h_.node) if isinstance(n, ast.BinOp) and isinstance(n.op, ast.Mult) and isinstance(n.left, ast.Tuple) and len(n.left.elts) == 1]
+                if len(hs_) == 1:
+                    sizes = hs_
+                    ld = h_
+                    ctx.touch(h_)
+                    break
     need(len(sizes) == 1, "idiom changed: placeholder tuple `(default,) * size` not found in _load")
     sub = lambda nm: (single_def(ld, nm) or (None, None))[1]
     size_e = sizes[0].right
@@ -531,6 +543,41 @@ def formulas_rule(ctx, rid):
     return rr
 
 
+def reaper_files_expr(ctx, init):
+    """The iterable of result-file names the Reaper maps its loader over, by role: the second argument of the `map(<loader>, X)`
+    that feeds self.results (a local of any name, or an expression)."""
+    for c in ast.walk(init.node):
+        if isinstance(c, ast.Call) and isinstance(c.func, ast.Name) and c.func.id == "map" and len(c.args) == 2:
+            x = c.args[1]
+            if isinstance(x, ast.Name):
+                d = single_def(init, x.id)
+                if d is not None and d[1] is not None:
+                    return d[1]
+            elif not (isinstance(x, ast.Call) and norm(x.func) == "range"):
+                return x
+    d = single_def(init, "files")
+    return d[1] if d is not None else None
+
+
+def as_comprehension(ctx, fi, e):
+    """`map(f, it)` with f a one-return function / method of one argument, rewritten as `(<return expr> for <param> in it)`"""
+    if isinstance(e, ast.Call) and isinstance(e.func, ast.Name) and e.func.id == "map" and len(e.args) == 2 and not e.keywords:
+        fe = e.args[0]
+        target = None
+        if isinstance(fe, ast.Attribute) and isinstance(fe.value, ast.Name) and fe.value.id == "self" and fi.cls is not None:
+            target = fi.cls.methods.get(fe.attr)
+        elif isinstance(fe, ast.Name):
+            target = fi.nested.get(fe.id) or ctx.prog.func("%s.%s" % (fi.module.name, fe.id))
+        if target is not None:
+            ps = [p_ for p_ in target.positional if p_ != "self"]
+            body = [b for b in target.node.body if not (isinstance(b, ast.Expr) and isinstance(b.value, ast.Constant))]
+            if len(ps) == 1 and len(body) == 1 and isinstance(body[0], ast.Return) and body[0].value is not None:
+                ctx.touch(target)
+                src = "(%s for %s in %s)" % (ast.unparse(body[0].value), ps[0], ast.unparse(e.args[1]))
+                return ast.parse(src, mode="eval").body
+    return e
+
+
 # ------------------------------------------------------------------ id universe
 def id_universe_rule(ctx, rid, f=None):
     """C04.R4: Sower ids 1..B; the Reaper and missing_results enumerate
@@ -538,9 +585,9 @@ def id_universe_rule(ctx, rid, f=None):
     rr = ctx.rule(rid, "batch id universe: Reaper and missing_results range over [1, num_batches] ascending", floor=2)
     prog = ctx.prog
     init = prog.need_func(CROP + ".Reaper.__init__")
-    d = single_def(init, "files")
-    need(d is not None, "anchor lost: Reaper files")
-    ge = d[1]
+    fx = reaper_files_expr(ctx, init)
+    need(fx is not None, "anchor lost: Reaper files")
+    ge = as_comprehension(ctx, init, fx)
     need(isinstance(ge, (ast.GeneratorExp, ast.ListComp)) and len(ge.generators) == 1, "idiom changed: Reaper files is not a single-for comprehension")
     gen = ge.generators[0]
     if gen.ifs:
